@@ -177,10 +177,12 @@ type Interceptor struct {
 // burst calculates the minimal burst size required to reach the given rate and
 // pacing interval.
 func burst(rate int, interval time.Duration) int {
-	if interval == 0 {
-		interval = time.Millisecond
+	// intervals below one millisecond (and the unset zero value) are sized like a one millisecond interval
+	ms := interval.Milliseconds()
+	if ms < 1 {
+		ms = 1
 	}
-	f := float64(time.Second.Milliseconds() / interval.Milliseconds())
+	f := float64(time.Second.Milliseconds() / ms)
 
 	return max(8*1500, int(float64(rate)/f))
 }
